@@ -10,7 +10,8 @@ External functions are parameters:
   length — a caller-supplied `entropy=` callable need not honour the size) or the exception raised;
 * SHA-256 of the PRNG is `H : Bytes → Bytes` (any function);
 * `int(math.log(order - 1, 2) + 1)` of `bits_and_bytes` is the argument `bits : Nat` (any value);
-* `"%s" % seed` (for `bytes` seeds Python's `repr`) is the argument `seedStr : Bytes`.
+* `"%s" % seed` is the argument `seedStr : Bytes`; for `bytes` seeds it is `reprBytes seed` (Python's `repr`),
+  modelled here; for `str`/`int` seeds the harness supplies it.
 
 Unbounded `while True` loops take a `fuel`; `none` means "the model gave up" (the real code would go
 on asking for entropy), it is not an outcome of the code and no theorem claims anything about it.
@@ -78,10 +79,10 @@ def randrange (ent : Entropy) (order : Int) (hist : List Nat) (fuel : Nat) : Opt
 /-- the entropy source that replays a scripted byte stream (the harness's `Replay` callable):
 request number i gets the next `size` bytes; `IndexError` when the script is exhausted -/
 def streamEntropy (stream : Bytes) : Entropy := fun hist =>
-  match hist.reverse with
-  | [] => .error .indexError
-  | size :: before =>
-    let off := before.foldl (· + ·) 0
+  match hist.getLast? with
+  | none => .error .indexError
+  | some size =>
+    let off := hist.dropLast.sum
     if off + size > stream.length then .error .indexError else .ok ((stream.drop off).take size)
 
 /-- the entropy source that replays scripted chunks regardless of the size asked for -/
@@ -121,6 +122,22 @@ def signNumber {σ : Type} (sign : Int → Res σ) (ent : Entropy) (order : Int)
 /-! ### PRNG and the seed helpers -/
 
 def decimal (n : Nat) : Bytes := (toString n).toUTF8.toList
+
+def hexDigitLower (n : Nat) : UInt8 := UInt8.ofNat (if n < 10 then 48 + n else 87 + n)
+
+/-- `repr(seed)` for a `bytes` seed — what `"%s" % seed` produces on Python 3: `b'…'` (or `b"…"` when
+the data contains `'` but no `"`), with `\\`, the quote, `\t`, `\n`, `\r` escaped and every byte outside
+0x20..0x7e written `\xNN` -/
+def reprBytes (s : Bytes) : Bytes :=
+  let quote : UInt8 := if s.contains 39 && !s.contains 34 then 34 else 39
+  let esc (b : UInt8) : Bytes :=
+    if b = quote || b = 92 then [92, b]
+    else if b = 9 then [92, 116]
+    else if b = 10 then [92, 110]
+    else if b = 13 then [92, 114]
+    else if b < 32 || b ≥ 127 then [92, 120, hexDigitLower (b.toNat / 16), hexDigitLower (b.toNat % 16)]
+    else [b]
+  [98, quote] ++ s.flatMap esc ++ [quote]
 
 /-- `("prng-%d-%s" % (counter, seed)).encode()` given the encoded `"%s" % seed` -/
 def prngInput (counter : Nat) (seedStr : Bytes) : Bytes :=
